@@ -10,6 +10,19 @@ for l in open(os.path.join(VERIF, "properties.jsonl")):
 
 # id -> (category, technique, text, note, design_ref)
 CLAIMED = {
+    "C01": ("proof",
+            "Lean 4 theorems (model digest = consensus digest for all tx/index/flag/hash function) + correspondence on 3 entry points",
+            "Props/C01.lean proves for every transaction, input index, script code, amount and every SHA-256 replacement that the "
+            "model's legacy digest equals Satoshi's algorithm (serialise the modified copy + hash type; uint256 ONE for SINGLE without "
+            "output), the segwit digest equals BIP143 and the taproot digest equals BIP341 SigMsg/TapSighash incl. annex, leaf "
+            "version, codeseparator position and the error cases, for all 8 (7 for taproot) flags; invalid flags/indices are refused. "
+            "Each run ties the model to embit by comparing Transaction, PSBT (v0/v2, parsed and constructed) and PSBTView (v0/v2 at "
+            "stream offsets) digests with the Lean model and, independently, with the Lean consensus spec on generated transactions x "
+            "all indices x all flags. Partial: the PSBT.sighash script-type dispatch is covered by correspondence in C02, not yet by a theorem.",
+            "Trusted: Lean kernel + propext/Quot.sound/Classical.choice; harness generators; CPython/hashlib; my transcription of "
+            "Core's SignatureHash/BIP143/BIP341 in Spec/Consensus.lean (corroborated by embit's recorded signing vectors in C02). "
+            "Digest memoisation across calls is C19's subject.",
+            "§5 C01"),
     "C03": ("proof",
             "Lean 4 theorems (parser = inverse of wire encoding, all inputs) + model/implementation correspondence",
             "Props/C03.lean proves, for every transaction and every byte string with no size bound, that the model's "
